@@ -171,7 +171,7 @@ def solve(st, assumptions, bad, timeout_s=60, seed=0, want_model=True, label='',
             cache = {}
             acons = [abstract_nl(c, cache) for c in variant[0]]
             acons += nl_lemmas(cache)
-            r, m, dt, sol = _solve(acons, min(timeout_s, 30) * 1000, seed)
+            r, m, dt, sol = _solve(acons, min(timeout_s, 45) * 1000, seed)
             st.z3_s += dt; st.stage1 += 1
             if r == z3.unsat:
                 st.unsat += 1
